@@ -12,6 +12,7 @@
 package main
 
 import (
+	"encoding/json"
 	"errors"
 	"flag"
 	"fmt"
@@ -78,9 +79,36 @@ func mkbuf(b []byte) []byte {
 	return back[:len(b)]
 }
 
+// intentFile holds, while a call that may allocate is in flight, a two-event replay file (the buffer, the call).  A fatal runtime error
+// (out of memory) cannot be recovered in-process; the runner reads this file, repeats the call in a child process and, if the child
+// dies too, hands the crash to the specification as the outcome of that call.
+var intentFile *os.File
+
+func writeIntent(buf []byte, e *tr.Ev) {
+	if intentFile == nil {
+		return
+	}
+	switch e.Op {
+	case "Tag", "Seek", "Reset", "SetMode", "More", "Offset", "Bool", "Fixed32", "Fixed64", "Float32", "Float64":
+		return // these cannot allocate in proportion to a declared length
+	}
+	n := &tr.Ev{C: "new", Buf: tr.Bytes(buf)}
+	n.Norm()
+	c := *e
+	c.Norm()
+	b, err := json.Marshal(map[string]interface{}{"events": []*tr.Ev{n, &c}})
+	if err != nil {
+		return
+	}
+	if _, err := intentFile.WriteAt(b, 0); err == nil {
+		_ = intentFile.Truncate(int64(len(b)))
+	}
+}
+
 // doCall executes one decoder call and emits its event.
 func doCall(d *csproto.Decoder, buf []byte, c call, hx bool, x []int, xs [][]int) *tr.Ev {
 	e := &tr.Ev{C: "dec", Op: c.op, Fn: c.fn, Wt: c.wt, I1: c.i1, I2: c.i2, P: d.Offset(), Mode: int(d.Mode())}
+	writeIntent(buf, e)
 	if hx {
 		e.Hx, e.X, e.Xs = 1, x, xs
 	}
@@ -1106,7 +1134,14 @@ func main() {
 	thorough := flag.Bool("thorough", false, "thorough tier sizes")
 	iters := flag.Int("iters", 2000, "iterations for random families")
 	replay := flag.String("replay", "", "replay file: re-execute its events")
+	intent := flag.String("intent", "", "file that always holds the call about to be made (read by the runner if this process dies in library code)")
 	flag.Parse()
+	if *intent != "" {
+		f, ferr := os.Create(*intent)
+		if ferr == nil {
+			intentFile = f
+		}
+	}
 	runtime.GOMAXPROCS(1)
 	rng = rand.New(rand.NewSource(*seed))
 	var paths []string
